@@ -187,6 +187,19 @@ Theorem expand_word_single_eq_spec :
     end.
 Proof. exact expand_word_single_refines_lemma. Qed.
 
+Theorem expand_text_single_eq_spec :
+  forall (t : text) (e : env),
+    match spec_text_single t e with
+    | SOk v e' => expand_text_single t e = Ok v e'
+    | SErr k => expand_text_single t e = Err k
+    | SUnspec => True
+    end.
+Proof. exact expand_text_single_refines_lemma. Qed.
+
+Theorem command_subst_newlines :
+  forall s : str, trim_end_newlines s = strip_newlines s.
+Proof. exact trim_end_newlines_eq. Qed.
+
 Theorem spec_defined_on_core :
   forall (is_ws : N -> bool) (w : word) (e : env),
     core_word w = true -> scalar_env e = true -> spec_word_fields is_ws w e <> SUnspec.
@@ -247,6 +260,8 @@ Print Assumptions read_oracle_accepts_model.
 Print Assumptions expand_model_eq_spec.
 Print Assumptions expand_words_eq_spec.
 Print Assumptions expand_word_single_eq_spec.
+Print Assumptions expand_text_single_eq_spec.
+Print Assumptions command_subst_newlines.
 Print Assumptions spec_defined_on_core.
 Print Assumptions words_oracle_accepts_model.
 Print Assumptions pmatch_eq_matches.
